@@ -134,6 +134,20 @@ func (g *ExecutionGraph) IsRunning() bool {
 	return false
 }
 
+// isExecuting reports whether the command of any node is still running. A
+// node that was signalled to stop is no longer "running" (it is marked
+// canceled at once), but its process may live on.
+func (g *ExecutionGraph) isExecuting() bool {
+	g.mu.RLock()
+	defer g.mu.RUnlock()
+	for _, node := range g.Nodes() {
+		if node.isExecuting() {
+			return true
+		}
+	}
+	return false
+}
+
 func (g *ExecutionGraph) FinishAt() time.Time {
 	g.mu.RLock()
 	defer g.mu.RUnlock()
